@@ -30,6 +30,8 @@ from engine import common, runpy as erunpy
 NAMES = {
     "a": "module_aa", "b": "module_bb", "c": "module_cc", "d": "module_dd", "e": "module_ee",
     "s": "module_ss", "t": "module_tt",
+    # siblings whose spelling merely extends another module's (b/b2, t/t2): textual-prefix names
+    "b2": "module_bb2", "t2": "module_tt2",
     "p": "package_p", "q": "package_q", "r": "package_r",
     "f": "fun_f", "g": "obj_g", "h": "own_h", "_h": "_hid_h", "k": "key_k",
     "v": "val_v", "w": "wid_w",
@@ -478,7 +480,8 @@ TAGGED_CAP = 120
 
 
 def drive(prop, tier, scopes, invariants, replay_fn, acts_fn, quick_limit, act_key, assumptions, rule,
-          env_prefix, tlc_parallel=6, tlc_workers=2, small_all=lambda name: False, neutral_tags=()):
+          env_prefix, tlc_parallel=6, tlc_workers=2, small_all=lambda name: False, neutral_tags=(),
+          extra=None):
     """The common course of a PyModules check.
 
     scopes: [(name, constants)]; replay_fn(item) -> result dict (module-level function, runs in the
@@ -630,6 +633,10 @@ def drive(prop, tier, scopes, invariants, replay_fn, acts_fn, quick_limit, act_k
             verdict.machinery_failure("vacuous: no request of action %s changed anything" % a)
     if nprogs < planned * 0.98:
         verdict.machinery_failure("only %d of %d planned programs were replayed" % (nprogs, planned))
+    extra_cov = {}
+    if extra is not None and not only:
+        # further families of the same property decided with another spec (e.g. MoveMethod via PyClass)
+        extra_cov = extra(tier, verdict)
     for msg in verdict.machinery[:5]:
         print("MACHINERY:", msg[:1500])
     code = verdict.finish()
@@ -648,6 +655,7 @@ def drive(prop, tier, scopes, invariants, replay_fn, acts_fn, quick_limit, act_k
         "requests_by_action": by_action,
         "failing_requests": len(failing), "minimal_cores": len(cores),
         "tlc": tlc_stats,
+        "other_families": extra_cov,
         "known_finding_hits": verdict.known_hits,
     }, timer.s(), violations=len(verdict.violations), assumptions=assumptions)
     shutdown()
